@@ -232,6 +232,17 @@ def make_program(rnd, n_pos, name="M0", module="simgen_m0", pyname=None, collide
             t.setdefault(g, []).append(nm)
             role = rnd.choice(["machine", "machine", "model", "L0"])
             prog["cbs"][f"{role}.{nm}"] = {"group": g, "sig": gen_sig(rnd, n_pos, collide and rnd.random() < 0.5)}
+    if rnd.random() < 0.35:
+        # several candidates for one (state, event): a guarded alternative declared BEFORE an existing
+        # transition -- whichever runs, its callbacks see ITS transition / target
+        t = rnd.choice(prog["trans"])
+        nm = f"g_{k}"
+        k += 1
+        role = rnd.choice(["machine", "machine", "model", "L0"])
+        prog["cbs"][f"{role}.{nm}"] = {"group": "cond", "sig": gen_sig(rnd, n_pos, collide and rnd.random() < 0.5)}
+        alt = {"src": t["src"], "dst": rnd.choice([x for x in ids if x != t["dst"]] or ids), "events": list(t["events"]),
+               "cond": [nm]}
+        prog["trans"].insert(prog["trans"].index(t), alt)
     if rnd.random() < 0.3:
         # guards combined in a boolean expression: each operand is bound by its own signature, exactly
         # as when it is attached alone
